@@ -694,6 +694,10 @@ func init() {
 		ctx.Header("M3CloseCorr")
 		ctx.Res.Rule = "controlled case = (queue capacity, protocol, per-thread call lists over {ReportCount, ReportSamples on one shared bucket handle, Flush, Close}, step at which the sink is closed, extra destinations (1..3 HostPorts: unreachable before / after the sink, a second live sink), complete schedule over the yield points of reportCopyMetric / Flush / Close / process()); compared with the model: label or Blocked after every step, values received by the sink in order, result of every Close; exhaustive enumeration of all interleavings of two small pools, seeded random schedules (half of them starving process() so that the queue fills) for larger pools; non-trivial = two threads interleaved inside the protocol; distinct by (pool, capacity, executed schedule). Storm cases (class storm-*) are uncontrolled and checked only by the direct predicate (no panic, no hang, one nil Close, no goroutine of package m3 left; storm-concurrent-close = 8..32 goroutines behind a barrier calling Close on a fresh reporter, repeated; size-sweep = Allocate / Report / Flush / Close for metrics with every own-tag count 0..33 and reporters with 0..8 InternalTags, run in a child process so that a panic of the reporter's own goroutine becomes a failing input; multi-destination = a reporter with 2..3 HostPorts (extra destinations unreachable or live), rounds of ReportCount + Flush one datagram each, optionally the sink closed half-way, then Close and the goroutine-leak check over package m3 and its transports; storm-flush-heavy = 2..6 goroutines calling Flush in a tight loop while 1..3 report, queues 1..4096, every call under recover(); storm-concurrent-allocate = goroutines allocate histograms with one tag set at the same time and every handle must equal (per-bucket sizes, ids, names) the one allocated alone on a fresh reporter; storm-shared-{bucket,counter,gauge,timer} = all goroutines report unique values through ONE allocated handle and no value may reach the sink more often than it was reported)"
 		nsched := 0
+		// three failures that are not known findings are the verdict: on a tree whose calls no
+		// longer complete every further controlled case would run into its completion bound
+		unlisted := 0
+		stop := func() bool { return unlisted >= 3 }
 		one := func(c *c14Case, known string) bool {
 			out, _ := c14Exec(c, true)
 			pred, what := c14Predicate(c, &out)
@@ -720,6 +724,7 @@ func init() {
 					ctx.FailKnown(known, pred, what, cc, out)
 				} else {
 					ctx.Fail(pred, what, cc, out)
+					unlisted++
 				}
 				return false
 			}
@@ -838,7 +843,7 @@ func init() {
 				return true
 			}
 			rec = func(prefix []int) {
-				if count >= limit {
+				if count >= limit || stop() {
 					return
 				}
 				c := base
@@ -885,23 +890,26 @@ func init() {
 		}
 		n1 := exhaust(c14Case{Cap: 1, SinkClose: -1, Threads: [][]c14Op{{{K: 1, V: 7}}, {{K: 4}}}}, ctx.N(400, 100000))
 		ctx.Res.Extra["exhaustive_pool_report_vs_close"] = n1
-		ctx.Res.SchedExhaustive = n1 < ctx.N(400, 100000)
-		if ctx.Thorough() {
+		ctx.Res.SchedExhaustive = n1 < ctx.N(400, 100000) && !stop()
+		if ctx.Thorough() && !stop() {
 			ctx.Res.Extra["exhaustive_pool_two_reports_cap1"] = exhaust(c14Case{Cap: 1, SinkClose: -1, Threads: [][]c14Op{{{K: 1, V: 7}}, {{K: 2, V: 8}}}}, 100000)
 			ctx.Res.Extra["exhaustive_pool_close_vs_close"] = exhaust(c14Case{Cap: 2, SinkClose: -1, Threads: [][]c14Op{{{K: 4}}, {{K: 4}, {K: 1, V: 5}}}}, 100000)
 		}
 		n := ctx.N(260, 5000)
-		for k := 0; k < n; k++ {
+		for k := 0; k < n && !stop(); k++ {
 			c := c14RandomCase(ctx.R, false)
 			one(&c, "")
 		}
 		// concurrent ReportSamples on the shared handle (F14 region on the pinned tree)
-		for k, nk := 0, ctx.N(40, 600); k < nk; k++ {
+		for k, nk := 0, ctx.N(40, 600); k < nk && !stop(); k++ {
 			c := c14RandomCase(ctx.R, true)
 			c.Witness = "F14"
 			one(&c, "F14")
 		}
 		ctx.Res.Schedules = nsched
+		if stop() {
+			ctx.Note("controlled streams stopped after %d failures that are not known findings", unlisted)
+		}
 		c14Storms(ctx)
 	}
 }
